@@ -160,6 +160,7 @@ func NewClient(conf ClientConfig) *Client {
 func (c *Client) Connect(ctx context.Context, address string) error {
 	simBeforeLock(&c.mu, true)
 	c.mu.Lock()
+	simAfterLock(&c.mu)
 	defer c.mu.Unlock()
 
 	conn, err := c.dialContextFunc(ctx, address)
@@ -194,6 +195,7 @@ func addressExtractor(address string) (string, string) {
 func (c *Client) Close() error {
 	simBeforeLock(&c.mu, true)
 	c.mu.Lock()
+	simAfterLock(&c.mu)
 	defer c.mu.Unlock()
 
 	if c.conn == nil {
@@ -220,6 +222,7 @@ func (e *ClientError) Unwrap() error { return e.Err }
 func (c *Client) Do(ctx context.Context, req packet.Request) (packet.Response, error) {
 	simBeforeLock(&c.mu, true)
 	c.mu.Lock()
+	simAfterLock(&c.mu)
 	defer c.mu.Unlock()
 
 	if req == nil {
